@@ -89,3 +89,24 @@ pub(crate) mod wake {
         a.0.load(Ordering::SeqCst)
     }
 }
+
+/// Allocation-free wakers: waker k increments WOKEN[k] (cheaper for CBMC than Arc-based wakers).
+pub(crate) mod rawwake {
+    use std::task::{RawWaker, RawWakerVTable, Waker};
+    pub static mut WOKEN: [usize; 4] = [0; 4];
+    unsafe fn clone(p: *const ()) -> RawWaker {
+        RawWaker::new(p, &VTABLE)
+    }
+    unsafe fn wake(p: *const ()) {
+        unsafe { WOKEN[p as usize - 1] += 1 };
+    }
+    unsafe fn drop(_p: *const ()) {}
+    static VTABLE: RawWakerVTable = RawWakerVTable::new(clone, wake, wake, drop);
+    /// waker number k in 0..4 (the data pointer is just the tag k+1)
+    pub fn waker(k: usize) -> Waker {
+        unsafe { Waker::from_raw(RawWaker::new((k + 1) as *const (), &VTABLE)) }
+    }
+    pub fn woken(k: usize) -> usize {
+        unsafe { WOKEN[k] }
+    }
+}
